@@ -317,9 +317,14 @@ pub fn op_zc_tok(s: &str) -> String {
     let (n_o, d2) = measure(|| owned.decoded());
     drop(d2);
     drop(t);
+    // the owned door: `Token::new(String)` must keep the buffer it is handed when nothing needs escaping
+    let owned_text = String::from(s);
+    let (n_new_o, t_o) = measure(move || Token::new(owned_text));
+    drop(t_o);
     let mut o = Out::new();
     o.f("new", b01(n_new != 0));
     o.f("dec_b", b01(n_b != 0));
     o.f("dec_o", b01(n_o != 0));
+    o.f("new_o", b01(n_new_o != 0));
     o.finish()
 }
